@@ -92,7 +92,10 @@ class JsonObject : public detail::VariantOperators<JsonObject> {
 
     clear();
     for (auto kvp : src) {
-      if (!operator[](kvp.key()).set(kvp.value()))
+      // the destination is empty: append the member instead of looking the
+      // key up, which also preserves the repeated keys of a MessagePack map
+      auto value = data_->addMember(detail::adaptString(kvp.key()), resources_);
+      if (!value || !JsonVariant(value, resources_).set(kvp.value()))
         return false;
     }
 
